@@ -36,11 +36,24 @@ def random_history(tid, seed, nvars, steps, max_held=8, profile='core'):
         tr.add_var(nm)
     b = tr.bdd
     recent = []   # (op, args) of earlier calls, re-issued after cache clears
-    for _ in range(steps):
+    dynp = profile == 'dyn'
+    if dynp:
+        tr.dynnat = True
+        tr.call('other', dict(what='configure', reordering=True),
+                lambda: (b.configure(reordering=True), 0)[1])
+    for step in range(steps):
         held = tr.held()
+        if dynp and step % 7 == 0:
+            # lower the growth threshold (harness knob) so that requests fire naturally
+            def lower():
+                b._last_len = max(1, len(b) // rng.choice([1, 2, 3]))
+                return 0
+            tr.call('other', dict(what='lower_threshold'), lower)
         keys = tr.cache_keys()
         n_ev = len(tr.events)
         c = rng.random()
+        if dynp and (0.60 <= c < 0.62 or c >= 0.89):
+            c = rng.random() * 0.6      # no direct find_or_add / explicit reordering here
         if len(held) > max_held:
             c = 0.62 + 0.1 * rng.random()
         if len(held) < 2:
